@@ -111,6 +111,12 @@ Proof.
   cbn beta. intros a (X & _). exact X.
 Qed.
 
+Lemma last_In {A} (l : list A) d : l <> [] -> In (last l d) l.
+Proof.
+  induction l as [|x l IH]; [contradiction|]. intros _.
+  destruct l as [|y l']; [now left|]. right. apply IH. discriminate.
+Qed.
+
 (** * Time and claims *)
 
 Ltac Zify.zify_post_hook ::= Z.div_mod_to_equations.
@@ -587,5 +593,78 @@ Section JwtProofs.
     destruct (check_claims _ _) eqn:C; [discriminate|]. intros [= <-].
     apply check_claims_iff in C. cbn [c_iss c_aud c_typ c_sub c_scope] in C.
     destruct C as ([X|X] & A & _ & S & _); [discriminate|]. auto.
+  Qed.
+  (** ** Signing side *)
+  Context {PM SK : Type}.
+  Variable parse_priv : PM -> option SK.
+
+  Notation core_pick := (core_pick parse_priv).
+
+  (** [simpleCore.Sign] signs only with a stored private key whose public half
+      is on the card under the same id, is an RSA key and is inside its
+      validity window at the signing instant; with no id asked for it is the
+      last stored key, otherwise the first stored key of that id. *)
+  Theorem core_pick_sound (privs : list (bytes * PM)) (card : list (@pubkey M)) req now id sk :
+    core_pick privs card req now = COk (id, sk) ->
+    exists pm pub,
+      In (id, pm) privs /\ parse_priv pm = Some sk /\
+      (req = [] -> exists p0, (id, pm) = last privs p0) /\ (req <> [] -> id = req) /\
+      find_key card id = Some pub /\ pk_type pub = key_type_rsa /\ key_valid pub now = None.
+  Proof.
+    unfold Jwt.core_pick. destruct privs as [|p0 r]; [discriminate|].
+    set (pick := if is_empty req then Some (last (p0 :: r) p0) else find _ (p0 :: r)).
+    destruct pick as [[id' pm]|] eqn:P; [|discriminate].
+    destruct (find_key card id') as [pub|] eqn:F; [|discriminate].
+    destruct (beq_bytes (pk_type pub) key_type_rsa) eqn:T; cbn [negb]; [|discriminate].
+    destruct (key_valid pub now) as [e|] eqn:V; [destruct e; discriminate|].
+    destruct (parse_priv pm) as [sk'|] eqn:Q; [|discriminate].
+    intros [= <- <-]. apply beq_bytes_spec in T.
+    exists pm, pub. unfold pick in P.
+    destruct req as [|c req']; cbn [is_empty] in P.
+    - injection P as P. split.
+      + rewrite <- P. exact (last_In (p0 :: r) p0 ltac:(discriminate)).
+      + repeat split; auto; [intros _; eexists; symmetry; exact P|intros N; now elim N].
+    - apply find_some in P. destruct P as [I E]. cbn [fst] in E. apply beq_bytes_spec in E.
+      repeat split; auto. discriminate.
+  Qed.
+
+  (** The key chosen for signing at [now] passes every key check of the
+      verifier at the same instant for the same card; what is left is the
+      signature itself. *)
+  Theorem core_pick_then_verifier (privs : list (bytes * PM)) (card : list (@pubkey M)) req now id sk t :
+    core_pick privs card req now = COk (id, sk) ->
+    h_kid (t_header t) = id -> h_alg (t_header t) = alg_rs256 ->
+    exists pub, find_key card id = Some pub /\
+      rs_verifier parse_key rsa_verify card t now =
+      match parse_key (pk_mat pub) with
+      | None => Some EKeyParse
+      | Some rk => if rsa_verify rk (t_payload t) (t_sig t) then None else Some EWrongSig
+      end.
+  Proof.
+    intros P Kid A. apply core_pick_sound in P.
+    destruct P as (pm & pub & _ & _ & _ & _ & F & T & V). exists pub. split; [exact F|].
+    unfold rs_verifier. rewrite A, beq_bytes_refl, Kid, F, T, beq_bytes_refl, V. reflexivity.
+  Qed.
+
+  (** ** [authgate.Exchange] *)
+
+  (** A session is handed out only for an access token that verifies under
+      the card at that instant, whose claims match issuer, audience and (when
+      one is named) the user, and for a positive lifetime; the session is
+      exactly what [Sessions.New] makes for that user and lifetime. *)
+  Theorem exchange_sound {S : Type} (sess : Z -> bytes -> S) card issuer audience now tok user ttl s :
+    exchange parse_header parse_claims b64_decode_canon parse_key rsa_verify sess
+             card issuer audience now tok user ttl = inl s ->
+    exists t,
+      rs_verify card now tok = JOk t /\
+      field_ok issuer (c_iss (t_claims t)) /\ field_ok audience (c_aud (t_claims t)) /\
+      field_ok user (c_sub (t_claims t)) /\ 0 < ttl /\ s = sess ttl user.
+  Proof.
+    unfold exchange. destruct (is_empty tok); [discriminate|].
+    destruct (rs_verify card now tok) as [t|] eqn:V; [|discriminate].
+    destruct (check_claims _ _) eqn:C; [discriminate|].
+    destruct (Z.leb_spec ttl 0); [discriminate|]. intros [= <-].
+    apply check_claims_iff in C. cbn [c_iss c_aud c_typ c_sub c_scope] in C.
+    exists t. tauto.
   Qed.
 End JwtProofs.
